@@ -25,6 +25,7 @@ func CheckIfAccountIsSuitableForDestroying(account sdk.AccountI) (destroyable bo
 // It returns false and the reason if the account:
 //  1. Is a module account.
 //  2. Is a vesting account which still not expired at the given time.
+//  3. Is a permanent locked account (its end time is zero, but its coins never unlock).
 func CheckIfAccountIsSuitableForDestroyingAt(account sdk.AccountI, blockTime time.Time) (destroyable bool, reason string) {
 	if account == nil || reflect.ValueOf(account).IsNil() {
 		panic("account is nil")
@@ -32,6 +33,11 @@ func CheckIfAccountIsSuitableForDestroyingAt(account sdk.AccountI, blockTime tim
 
 	if _, isModuleAcc := account.(sdk.ModuleAccountI); isModuleAcc {
 		reason = "module account is not suitable for destroying"
+		return
+	}
+
+	if _, isPermanentLockedAcc := account.(*vestingtypes.PermanentLockedAccount); isPermanentLockedAcc {
+		reason = "permanent locked account is not suitable for destroying"
 		return
 	}
 
